@@ -42,6 +42,7 @@ type ftEnv struct {
 	lb     *loadbalancer.LoadBalancer
 	closed atomic.Bool
 	base   int // goroutines right after construction
+	healthDelay atomic.Int64 // ms the backend takes to answer an active probe (still 200)
 }
 
 var ft *ftEnv
@@ -58,6 +59,9 @@ func (e *ftEnv) serveConn(c net.Conn) {
 		return
 	}
 	if req.URL.Path == "/health" {
+		if d := e.healthDelay.Load(); d > 0 {
+			time.Sleep(time.Duration(d) * time.Millisecond)
+		}
 		_, _ = io.WriteString(c, "HTTP/1.1 200 OK\r\nContent-Length: 0\r\nConnection: close\r\n\r\n")
 		return
 	}
@@ -348,6 +352,14 @@ func ftOp(w []string) string {
 			parts = append(parts, fmt.Sprintf("%s:%d", k, v))
 		}
 		return fmt.Sprintf("ended=%d || classes=%s maxms=%d", endedN.Load(), strings.Join(parts, ","), maxMs)
+	case len(w) == 2 && w[0] == "health":
+		// ft health <ms>: from now on the backend answers active probes after <ms> (a slow but healthy probe)
+		ms, err := strconv.Atoi(w[1])
+		if err != nil || ms < 0 || ms > 5000 {
+			return "bad-op"
+		}
+		e.healthDelay.Store(int64(ms))
+		return "ok"
 	case len(w) == 1 && w[0] == "probe":
 		e.setMode("ok")
 		time.Sleep(1300 * time.Millisecond) // unhealthy window and breaker timeout are 1 s
